@@ -3,6 +3,7 @@ package checks
 import (
 	"fmt"
 	"os"
+	"path/filepath"
 	"strconv"
 	"strings"
 	"time"
@@ -25,7 +26,7 @@ var c13YamlTokens = []string{".inf", "-.inf", ".nan", "~", "&x ", "*x", "!!str "
 
 var c13Readers = []string{"diff", "patch", "merge", "json", "yaml"}
 
-var c13Lines = []string{`^ {"Merge":true}`, `@ ["a"]`, `@ [0]`, `@ [1]`, `@ [{}]`, `@ [[]]`, `@ [{"id":1},"v"]`, `@ []`, `[`, `]`, `  1`, `- 1`, `+ 1`, `+`, ``, `- [1]`, `+ {"a":1}`}
+var c13Lines = []string{`^ {"Merge":true}`, `@ ["a"]`, `@ [0]`, `@ [1]`, `@ [{}]`, `@ [[]]`, `@ [{"id":1},"v"]`, `@ ["a",[{"id":1}],"v"]`, `@ []`, `[`, `]`, `  1`, `- 1`, `+ 1`, `+`, ``, `- [1]`, `+ {"a":1}`}
 
 var c13SmallTargets = []string{``, `1`, `[1]`, `[1,1]`, `[]`, `{}`, `{"a":1}`, `{"a":[1]}`, `[[1]]`, `[{"id":1,"v":1}]`, `null`, `"a"`, `[1,2,3]`}
 
@@ -734,6 +735,11 @@ func c13CLICases() []engine.Case {
 			}
 			out = append(out, engine.Case{Kind: "c13cli:" + bin, Leg: "cli/" + bin, A: m, X: "-t merge2jd"})
 		}
+		for _, o := range []string{"@FIRST/out", "@LONGNAME", "@DIR", "/nonexistent-dir/x/out", ""} {
+			out = append(out, engine.Case{Kind: "c13cli:" + bin, Leg: "cli-o/" + bin, A: `[1]`, B: `[2]`, X: "diff -o " + o})
+			out = append(out, engine.Case{Kind: "c13cli:" + bin, Leg: "cli-o/" + bin, A: "@ [0]\n- 1\n+ 2\n", B: `[1]`, X: "-p -o " + o})
+			out = append(out, engine.Case{Kind: "c13cli:" + bin, Leg: "cli-o/" + bin, A: `{"a":1}`, X: "-t json2yaml -o " + o})
+		}
 		for _, bad := range []string{"{", "[1,", "\x00", "a: [", "- - -", "{\"a\":1}}", "\"\\u12\"", ".inf", "a: -.inf", "- .nan", "a: [1, .NaN]", "a: 18446744073709551615", "1: a", "? [1]\n: 2", "a: &x [*x]", "a: !!binary x", "a: !!float x", "a: 1e400"} {
 			out = append(out, engine.Case{Kind: "c13cli:" + bin, Leg: "cli/" + bin, A: bad, B: `[1]`, X: "diff"})
 			out = append(out, engine.Case{Kind: "c13cli:" + bin, Leg: "cli/" + bin, A: bad, B: `[1]`, X: "diff -yaml"})
@@ -752,9 +758,20 @@ func runC13CLI(c *engine.Case) engine.Result {
 	f1 := cli.WriteFile(dir, "first", c.A)
 	args := append([]string{}, extra...)
 	for _, t := range strings.Fields(c.X) {
-		if t != "diff" {
+		switch t {
+		case "diff":
+		case "@FIRST/out": // a path below a regular file
+			args = append(args, f1+"/out")
+		case "@LONGNAME": // a file name longer than any file system allows
+			args = append(args, filepath.Join(dir, strings.Repeat("n", 300)))
+		case "@DIR": // a directory
+			args = append(args, dir)
+		default:
 			args = append(args, t)
 		}
+	}
+	if strings.HasSuffix(c.X, "-o ") {
+		args = append(args, "") // -o with an empty name
 	}
 	args = append(args, f1)
 	if !strings.HasPrefix(c.X, "-t") {
